@@ -741,8 +741,10 @@ pub fn gen_case(rng: &mut Rng) -> HistCase {
             ops.push(HOp::Retract { slot: rng.below(nfacts) });
         } else if r < 92 {
             ops.push(HOp::FireAll);
-        } else {
+        } else if r < 97 || long {
             ops.push(HOp::Reset);
+        } else {
+            ops.push(HOp::ClearWm);
         }
     }
     if !ops.iter().any(|o| matches!(o, HOp::FireAll)) {
@@ -766,6 +768,8 @@ pub enum HOp {
     Retract { slot: usize },
     FireAll,
     Reset,
+    /// `working_memory_mut().clear()`: every fact is gone; handles issued before stay retired
+    ClearWm,
 }
 
 impl HOp {
@@ -776,6 +780,7 @@ impl HOp {
             HOp::Retract { slot } => json!({"op": "retract", "fact": slot}),
             HOp::FireAll => json!({"op": "fire_all"}),
             HOp::Reset => json!({"op": "reset"}),
+            HOp::ClearWm => json!({"op": "working_memory_clear"}),
         }
     }
     pub fn from_json(j: &Json) -> Option<HOp> {
@@ -786,6 +791,7 @@ impl HOp {
             "retract" => HOp::Retract { slot: slot()? },
             "fire_all" => HOp::FireAll,
             "reset" => HOp::Reset,
+            "working_memory_clear" => HOp::ClearWm,
             _ => return None,
         })
     }
@@ -828,6 +834,7 @@ pub struct Viol {
 pub struct HistObs {
     /// the case was not judged at all (parser did not read the program back, conversion failed)
     pub skipped: Option<String>,
+    pub working_memory_clears: u64,
     pub firings: u64,
     pub fire_alls: u64,
     pub firings_judged_true: u64,
@@ -1289,6 +1296,15 @@ pub fn run_history(case: &HistCase, opts: &RunOpts) -> (Vec<Viol>, HistObs) {
                 HOp::Reset => {
                     engine.reset();
                     lock(&mon).fired_since_reset.clear();
+                }
+                HOp::ClearWm => {
+                    engine.working_memory_mut().clear();
+                    let mut m = lock(&mon);
+                    for s in m.facts.values_mut() {
+                        s.live = false;
+                        s.uncertain = false;
+                    }
+                    m.obs.working_memory_clears += 1;
                 }
                 HOp::FireAll => {
                     // what the statement promises for this call is computed BEFORE it, from the shadow
